@@ -337,7 +337,8 @@ def kf_c10_stris_ignore_dmax(case, o, kind, cfg, consts):
 # ---------------------------------------------------------------- C02 (query functions, declared extents)
 C02_DEREF_FIRST = {'dest': ['strcasecmp_s', 'strcasestr_s', 'strchr_s', 'strcmp_s', 'strcspn_s', 'strfirstchar_s', 'strfirstdiff_s', 'strfirstsame_s', 'strisalphanumeric_s', 'strisascii_s',
                             'strisdigit_s', 'strishex_s', 'strislowercase_s', 'strismixedcase_s', 'strisuppercase_s', 'strlastchar_s', 'strlastdiff_s', 'strlastsame_s', 'strpbrk_s', 'strspn_s',
-                            'strstr_s', 'wcscmp_s', 'wcsncmp_s', 'wcsstr_s'],
+                            'strstr_s', 'wcscmp_s', 'wcsncmp_s', 'wcsstr_s',
+                            'strcoll_s', 'strispassword_s', 'strnatcmp_s'],     # round 4: the C library's strcoll is unbounded; the other two test *dest first
                    'src': ['strcasestr_s', 'strcspn_s', 'strpbrk_s', 'strspn_s', 'strstr_s']}
 @pred
 def kf_c02_query_derefs_element_n(case, o, kind, cfg, consts):
